@@ -51,7 +51,7 @@ theorem mem_checkPriorBounds {cs : List Cand} {c : Cand} :
 
 theorem mem_backwardPass {cs : List Cand} {c : Cand} :
     c ∈ backwardPass cs ↔ c ∈ cs ∧ c.logq.isFinite = true ∧ c.inb = true := by
-  simp [backwardPass, checkPriorBounds]
+  simp [backwardPass, backwardPassX, checkPriorBounds]
   intro _; exact And.comm
 
 theorem mem_truncate {t : Option EV} {cs : List Cand} {c : Cand} (h : c ∈ truncate t cs) : c ∈ cs := by
